@@ -82,7 +82,11 @@ func (p *PipeServer) Dial() net.Conn {
 }
 
 // safety deadline for client reads: a machinery watchdog, never an oracle.
-const ioDeadline = 20 * time.Second
+// ioDeadline bounds one read or write on an in-memory connection. Healthy exchanges take micro- to
+// milliseconds; the deadline only ends exchanges that would otherwise never end (a response that is
+// never sent). It is generous because the sandbox may be saturated by other jobs: a violation must
+// not depend on how busy the machine is.
+const ioDeadline = 60 * time.Second
 
 // HangLimit bounds one in-memory exchange outside the scheduler (see ServeRecorded).
 var HangLimit = 60 * time.Second
